@@ -106,7 +106,8 @@ def baked_grid_key(mech, steps):
     """The recorded finding 'Dimension N has k blocks, adjust_chunks specified with m blocks' is about a consumer that
     baked its input's block count (the library's own sliding-window kernels and repeat) sitting over a rewrite no gate
     covers.  The same error in a program without such an operation means a gated pushdown changed the grid under the
-    consumer: a different mechanism, keyed apart so that it is reported."""
+    consumer: a different mechanism, keyed apart so that it is reported.  (Programs with a zero-length axis are not keyed
+    apart: there the grid also moves when empty pieces of a concatenation are dropped, which is the recorded finding.)"""
     if "Dimension_has_blocks" in mech and not any(s.get("op") in WINDOW_OPS for s in steps):
         return mech + ":without_window_op"
     return mech
